@@ -474,6 +474,7 @@ Inductive case :=
 (* a file holding the hdu_for_output of several arrays (assembled by astropy), read with Array2D.from_fits(hdu=k) *)
 | KMulti2 (flip : bool) (objs : list (list (list Q) * list (list bool) * (Q * Q))) (k : Z) (r : fres obs2)
 (* Array1D / Mask1D *)
+| KMulti1 (flip : bool) (objs : list (list Q * list bool * Q)) (k : Z) (r : fres obs1)
 | KFile1 (flip : bool) (vals : list Q) (mask : list bool) (sc : Q) (fs0 : fs1) (p : path) (ow : bool) (k : Z)
          (w : option fexn) (fs_after : fs1) (r : fres obs1)
 | KHdu1 (flip : bool) (vals : list Q) (mask : list bool) (sc : Q) (raw : hdu Q Q) (r : fres obs1)
@@ -533,6 +534,10 @@ Definition agree (c : case) : bool :=
                               match mk2 v m s with FOk a => [(Array2D_hdu_for_output (O := QOps)) flip a] | FRaise _ => [] end) objs in
       let fs := mkfs [] [([0%nat], concat hs)] in
       fres_eqb obs2_eqb (observe2 ((Array2D_from_fits (O := QOps)) flip fs [0%nat] (1, 1) k)) r
+  | KMulti1 flip objs k r =>
+      let hs := map (fun o => let '(v, m, s) := o in (Array1D_hdu_for_output (O := QOps)) flip (@Array1D_new QOps v m s)) objs in
+      let fs := mkfs [] [([0%nat], hs)] in
+      fres_eqb obs1_eqb (observe1 ((Array1D_from_fits (O := QOps)) fs [0%nat] 1 k)) r
   | KFile1 flip vals mask sc fs0 p ow k w fsa r =>
       let a := @Array1D_new QOps vals mask sc in
       let '(fs', w') := (Array1D_output_to_fits (O := QOps)) fs0 a p ow in
@@ -646,6 +651,12 @@ Definition spec_ok (c : case) : bool :=
           obs2_spec r (zf2 m v) (all_false2 v) (1, 1) (Some s0) (Some s)
       | _, _ => fres_eqb obs2_eqb r (FRaise IndexErr)
       end
+  | KMulti1 flip objs k r =>
+      negb (forallb (fun o => let '(v, m, s) := o in Nat.eqb (length v) (length m)) objs) ||
+      match py_nth objs k, objs with
+      | Some (v, m, s), (_, _, s0) :: _ => obs1_spec r (zf1 m v) (all_false1 v) 1 (Some s0) (Some s)
+      | _, _ => fres_eqb obs1_eqb r (FRaise IndexErr)
+      end
   | KFile1 flip vals mask sc fs0 p ow k w fsa r =>
       negb (target_ok fs0 p && Nat.eqb (length vals) (length mask)) ||
       (write_outcome_ok qeq fs0 p ow w fsa &&
@@ -663,10 +674,10 @@ Definition spec_ok (c : case) : bool :=
         if in_range [0] k then fres_eqb obsm1_eqb r (FOk (mask, sc)) else fres_eqb obsm1_eqb r (FRaise IndexErr)))
   | KHduM1 flip mask sc raw r => fres_eqb obsm1_eqb r (FOk (mask, sc))
   | KImaging flip mask data noise psf sc fs0 pd pp pn ow chk w fsa r =>
-      (* decided only for three distinct fresh targets (the single-file clauses are decided by KFile2) *)
+      (* decided for three pairwise independent targets, each fresh or overwritten (the hypotheses of C16_imaging_roundtrip) *)
       negb (target_ok fs0 pd && target_ok fs0 pp && target_ok fs0 pn
-            && negb (is_file fs0 pd) && negb (is_file fs0 pp) && negb (is_file fs0 pn)
-            && negb (path_eqb pd pp) && negb (path_eqb pd pn) && negb (path_eqb pp pn)
+            && written fs0 pd ow && written fs0 pp ow && written fs0 pn ow
+            && indep pd pp && indep pd pn && indep pp pn
             && shape2_ok data mask && shape2_ok noise mask
             && qeq (fold_left Qplus (concat psf) 0) 1
             && (negb chk || forallb (fun v => negb (Qle_bool v 0)) (concat (zf2 mask noise)))) ||
